@@ -114,6 +114,7 @@ func (sl *virtualStreamListener) Close() error {
 	sl.acceptCh = nil
 	close(sl.closeCh)
 	// The calls in flight are woken up by `closeCh`. Wait until they are gone.
+	vgate("C1w")
 	sl.inFlight.Wait()
 	if sl.onCloseFunc != nil {
 		onCloseFunc := sl.onCloseFunc
@@ -189,6 +190,7 @@ func (pc *virtualPacketConn) Close() error {
 
 	close(pc.closeCh)
 	// The calls in flight are woken up by `closeCh`. Wait until they are gone.
+	vgate("C1w")
 	pc.inFlight.Wait()
 	if pc.onCloseFunc != nil {
 		onCloseFunc := pc.onCloseFunc
